@@ -43,6 +43,12 @@ def _builder(seed):
             T = self.e.Types
             if isinstance(t, T.ListElement):
                 return self.value(t.converter, rng)
+            if isinstance(t, T.OneOf) and rng.random() < 0.15 and all(isinstance(v, str) for v in t.valid):
+                # a token given as a member of a str-mixin Enum (a common way for callers to spell enumerations): it IS the
+                # token as far as ==, hash and the str content go; its str() is something else
+                import enum
+                tok = rng.choice(list(t.valid))
+                return enum.Enum("Tok", {"M": tok}, type=str).M
             if isinstance(t, (T.Bool, T.OneOf)):
                 return super().value(t, rng)
             if isinstance(t, T.String):
@@ -142,6 +148,8 @@ def differences(a, b, path="", out=None):
     out = out if out is not None else []
     if len(out) > 5:
         return out
+    if isinstance(a, str) and type(a) is not str and type(b) is str:
+        a = str.__str__(a)          # a token given as a str-subclass member comes back as the plain token: the same text
     if type(a) is not type(b):
         out.append(f"{path}: class {type(a).__name__} became {type(b).__name__}")
         return out
